@@ -118,6 +118,41 @@ def check_claim(ctx, model):
     check_messages_attached(ctx, model, CLAIM, rule="C09-D1")
 
 
+def check_claim_requires_available_entry(ctx, model):
+    """D6: a reward enters the payout (aggregate_assets into claimable_fees) only after the asset was FOUND in the epoch's
+    `available` list: the success edge of `<find over epoch.available> .ok_or(..)?` dominates the aggregation. (The
+    subtraction loop below it silently does nothing for an asset without entry, so without this the payout has no
+    matching ledger decrease.)"""
+    v = ctx.view(CLAIM, "C09-D6")
+    if v is None:
+        return
+    aggs = v.calls_to(r"asset::aggregate_assets$")
+    if not aggs:
+        ctx.missing("C09-D6", "aggregate_assets in claim")
+        return
+    edges = []
+    with v.opaque(r"std::option::Option::(ok_or|ok_or_else)$"):
+        for b in sorted(v.live_blocks()):
+            te = try_edges(v, b)
+            if not te:
+                continue
+            cont, brk, bblock, inner = te
+            for o in v.origins_of_operand(inner, at=v.at_term(bblock)):
+                if not (o.kind == "call" and re.search(r"Option::(ok_or|ok_or_else)$", o.a)):
+                    continue
+                c = call_of(v, o)
+                if c is None:
+                    continue
+                src = v.origins_of_operand(c[1]["args"][0], at=v.at_term(c[0]), taint=True)
+                found = any(x.kind == "call" and re.search(r"Iterator>::(find|position|find_map)$", x.a) for x in src)
+                over_available = any(x.proj and "available" in x.proj for x in src)
+                if found and over_available:
+                    edges += cont
+    ok = bool(edges) and all(v.edge_dominated(b, edges) for b, _ in aggs)
+    ctx.ob("C09-D6", "%s|reward-needs-an-available-entry" % CLAIM, ok,
+           "payout aggregation dominated by `find over epoch.available`.ok_or(..)? : %s" % ok, v.where(aggs[0][0]))
+
+
 def check_query_claimable(ctx, model):
     v = ctx.view(QC, "C09-D2")
     if v is None:
@@ -146,6 +181,21 @@ def check_query_claimable(ctx, model):
         hits = [s for s in strict if s[0] == what]
         ctx.ob("C09-D2", "%s|filter|%s" % (QC, what), len(hits) == 1 and hits[0][1] == "gt" and hits[0][2],
                "retain(epoch.id %s %s): %s" % (hits[0][1] if hits else "?", what, hits), v.where())
+    # D6: epochs whose `available` is empty (already forwarded; they can re-enter the window when the grace period is
+    # raised) are filtered out: a retain closure keeps an epoch iff !epoch.available.is_empty()
+    emptiness = []
+    for b, t in retains:
+        for o in v.origins_of_operand(t["args"][1], at=v.at_term(b)):
+            if o.kind == "closure" and o.a in model.fnsrc:
+                cv = model.view(o.a)
+                for xb, xt in cv.calls_to(r"^std::vec::Vec::is_empty$"):
+                    a0 = cv.origins_of_operand(xt["args"][0], at=cv.at_term(xb))
+                    fld = sorted({x.proj[-1] for x in a0 if x.proj})
+                    # closure returns the negation
+                    neg = any(s_["rv"]["r"] == "un" and s_["rv"]["op"] == "Not" and s_["lhs"]["l"] == 0 for _, _, s_ in cv.iter_stmts())
+                    emptiness.append((fld, neg))
+    ctx.ob("C09-D6", "%s|filter|forwarded-epochs-excluded" % QC, emptiness == [(["available"], True)],
+           "retain closures testing emptiness: %s (must be exactly one, keeping epochs whose `available` is not empty)" % emptiness, v.where())
     # never bonded -> cleared
     ok = False
     for b, c, _ in switch_conds(v):
@@ -273,6 +323,7 @@ def run(ctx):
     model = ctx.model()
     check_claim(ctx, model)
     check_query_claimable(ctx, model)
+    check_claim_requires_available_entry(ctx, model)
     check_reply(ctx, model)
     check_window_selection(ctx, model)
     check_writers(ctx, model)
